@@ -260,7 +260,7 @@ class GptRank:
             out = self.klayers[key](out)
             if j < len(keys) - 1:
                 out = torch.tanh(out)
-        loss = ((out - y) ** 2).sum() / (2 * cfg.batch)
+        loss = ((out - y) ** 2).sum() / (2 * x.shape[0])
         loss.backward()
         for hd in handles:
             hd.remove()
